@@ -21,7 +21,7 @@ def gen_variant(rng, vid, uid, depth=1, vtype=None):
             "paths": paths, "children": children}
 
 
-def gen_treeinfo(rng, R=None):
+def gen_treeinfo(rng, R=None, uid_twins=False):
     arch = rng.choice(ARCHES)
     layered = rng.random() < 0.25
     d = {
@@ -42,7 +42,9 @@ def gen_treeinfo(rng, R=None):
         d["variants"][t] = gen_variant(rng, t, t)
     if rng.random() < 0.3:                      # dashed top-level UID (the 'Server-optional' case), childless
         t = rng.choice(list(d["variants"]))
-        if "optional" not in d["variants"][t]["children"] or d["variants"][t]["children"]["optional"]["type"] == "addon":
+        # uid_twins (the .treeinfo write/read cycle only): an ADDON child 'optional' of T beside a top-level 'T-optional' - two objects
+        # with one UID, kept apart by their section names; everywhere else UIDs are distinct within a tree (O15)
+        if "optional" not in d["variants"][t]["children"] or (uid_twins and d["variants"][t]["children"]["optional"]["type"] == "addon"):
             uid = t + "-optional"
             v = gen_variant(rng, "optional", uid, depth=3, vtype="optional")
             d["variants"][uid] = v
